@@ -4,6 +4,9 @@
  * block ENDS at that page (up to 7 bytes of alignment slack), so that any read or write past the end of a matrix buffer - by the
  * wrapper itself or by the BLAS/LAPACK routine it calls - raises SIGSEGV instead of silently touching the heap.  With
  * CVXOPT_GUARD_UNDER=1 in the environment the block instead STARTS right after a PROT_NONE page (catches accesses before the start).
+ * CVXOPT_GUARD_SLACK=<bytes> leaves that many canary bytes (0xA5) between the end of the block and the guard page: vectorised BLAS kernels
+ * read up to one vector register past the end of their operands (harmless, the data is discarded), which an exact guard would report;
+ * reads inside the slack pass, writes into it are detected when the block is freed (abort), accesses beyond it fault.
  * Only used by the verification harness; never part of a normal build.
  */
 #ifndef CVXVERIF_GUARD_ALLOC_H
@@ -20,6 +23,7 @@ typedef struct { size_t magic, total, user; char *base; } guard_hdr;
 
 static size_t guard_ps(void) { static size_t p = 0; if (!p) p = (size_t)sysconf(_SC_PAGESIZE); return p; }
 static int guard_under(void) { static int u = -1; if (u < 0) { const char *e = getenv("CVXOPT_GUARD_UNDER"); u = (e && e[0] == '1'); } return u; }
+static size_t guard_slack(void) { static long s = -1; if (s < 0) { const char *e = getenv("CVXOPT_GUARD_SLACK"); s = e ? atol(e) : 0; if (s < 0) s = 0; s = (s + 7) & ~7L; } return (size_t)s; }
 
 static void *guard_malloc(size_t n)
 {
@@ -27,13 +31,15 @@ static void *guard_malloc(size_t n)
     size_t nn = (n + 7) & ~(size_t)7;
     if (!guard_under()) {
         /* [hdr ... | user block][guard page] */
-        size_t need = nn + sizeof(guard_hdr);
+        size_t sl = guard_slack();
+        size_t need = nn + sl + sizeof(guard_hdr);
         size_t np = (need + ps - 1) / ps;
         size_t total = (np + 1) * ps;
         char *base = (char *)mmap(NULL, total, PROT_READ | PROT_WRITE, MAP_PRIVATE | MAP_ANONYMOUS, -1, 0);
         if (base == (char *)MAP_FAILED) return NULL;
         mprotect(base + np * ps, ps, PROT_NONE);
-        char *user = base + np * ps - nn;
+        char *user = base + np * ps - sl - nn;
+        if (sl) memset(user + nn, 0xA5, sl);
         guard_hdr *h = (guard_hdr *)(user - sizeof(guard_hdr));
         h->magic = GUARD_MAGIC; h->total = total; h->user = n; h->base = base;
         return user;
@@ -61,6 +67,11 @@ static void guard_free(void *p)
     if (!p) return;
     guard_hdr *h = guard_find(p);
     if (h->magic != GUARD_MAGIC) abort();          /* a pointer that did not come from this allocator */
+    if (!guard_under()) {
+        size_t sl = guard_slack(), nn = (h->user + 7) & ~(size_t)7, i;
+        for (i = 0; i < sl; i++)
+            if (((unsigned char *)p)[nn + i] != 0xA5) abort();   /* something was written past the end of the block */
+    }
     munmap(h->base, h->total);
 }
 
